@@ -32,8 +32,12 @@ META = {
             "pstack back (modelled as is; recovery is by mju_dispatch's free). mj_arenaAllocByte aligns the offset, not the "
             "address: for alignments > 64 on a 64-byte aligned arena the pointer can be misaligned (not counted as a "
             "violation). 'Every public engine call returns with the pstack it started with' is only sampled (oracle over "
-            "22 entry points x 4 models), not proved. The mjUSEASAN red-zone variant is covered by the theorems (parameter "
-            "rz) but only the regular build is run.",
+            "22 entry points x 4 models, with and without a thread pool), not proved. The mjUSEASAN red-zone variant is "
+            "covered by the theorems (parameter rz) but only the regular build is run. After a *caught* overflow under the "
+            "lock that is not followed by the bracket's mj_freeStack the mjData is over-reserved (top < limit): nothing is "
+            "claimed there and the harness does not execute unlocked calls in that state. The huge-size correspondence "
+            "accepts, besides exact equality with the unguarded model, an implementation that rejects a wrapping request "
+            "with error/NULL and an unchanged state (so the check survives an overflow-guard fix).",
 }
 
 P = "MjProof.C19."
@@ -210,11 +214,12 @@ def gen_wrap(rng, hist):
 
 
 def gen_odd(rng):
-    """outside the property's domain (alignment 0) and malformed ops: correspondence only."""
+    """malformed / rejected ops, and (via gen_lock(bracketed=False)) thread-lock phases without the mark/free bracket:
+    correspondence only.  Alignment 0 is outside the property's domain and is not exercised."""
     head, narena = pick_new(rng)
     lines = [head, "alloc 10 8", "arena 10 8"]
     for _ in range(6):
-        lines.append(rng.choice(("alloc %d 0" % rng.randint(0, 100), "arena %d 0" % rng.randint(0, 100), "frob 1 2", "alloc 1",
+        lines.append(rng.choice(("alloc %d 3" % rng.randint(0, 100), "arena %d 3" % rng.randint(0, 100), "frob 1 2", "alloc 1",
                                  "alloc x 8", "arena 5", "par 2 8 8", "new 5 5", "new %d 0" % REGION, "mark 3",
                                  "alloc 18446744073709551616 8", "parh 8", "dispatch 0 2 8 8", "lock", "unlock",
                                  "dispatch 2 2 8 8", "alloc -1 8")))
@@ -494,7 +499,6 @@ def oracle_stream(lines, outs):
                         q.frames[-1]["blocks"] += new
         q.state = st
         if fail:
-            cls = fail.split(":")[0].split(" [")[0][:40]
             key = ("c19:size-wrap:%s%s" % ("arena" if op == "arena" else "stack", "-threadlock" if q.locked and op != "arena" else "")
                    if big else "c19:%s:%s" % (op, classify(fail)))
             yield start, i, key, "%s -> %s: %s" % (l, o, fail)
@@ -574,15 +578,19 @@ def wrap_compare(ctx, lines, om, oi):
         if skip:
             continue
         if a != b:
-            args = [int(x) for x in l.split()[1:] if x.isdigit()]
+            w = l.split()
+            args = [int(x) for x in w[1:] if x.isdigit()]
             res_state = b.split(" | ")
-            if any(x >= (1 << 62) for x in args) and len(res_state) == 2 and res_state[0] in ("error", "null") and res_state[1] == prev_state:
+            toks = res_state[0].split()
+            toks = toks[1:] if toks[:1] == ["par"] else toks
+            if (any(x * {"num": 8, "int": 4}.get(w[0], 1) >= (1 << 62) for x in args) and len(res_state) == 2
+                    and toks and all(t in ("error", "null") for t in toks) and res_state[1] == prev_state):
                 guarded += 1
                 skip = True
             else:
                 bad.append({"line": l, "model": a, "impl": b})
                 skip = True
-        prev_state = b.split(" | ")[1] if " | " in b else None
+        prev_state = b.split(" | ")[1] if " | " in b else ("0 0 - 0 0 0" if b.startswith("new ") else None)
     return bad, guarded
 
 
